@@ -1,9 +1,9 @@
 (* Proofs about Model/Lkh.v:
-   - Tour::try_path returns only duplicate-free node sequences of the tour's length that start at node `index_of(path[0])`
-     (= node 0) and visit endpoints of the new edge set only; hence permutations of the tour when the joined edges stay
+   - Tour::try_path returns only duplicate-free node sequences of the tour's length that start at the tour's first node
+     and visit endpoints of the new edge set only; hence permutations of the tour when the joined edges stay
      inside the tour's nodes;
    - every path improve / optimize returns (for every hash-order oracle that only returns entries of the map) is a
-     permutation of the input, and is either the input itself or starts at node 0;
+     permutation of the input and starts at the input's first node;
    - the executable checker check_lkh decides the declarative contract. *)
 From Coq Require Import Permutation.
 From VRP Require Import Base.Tac Model.Lkh.
@@ -195,26 +195,25 @@ Definition new_edges (t : tour) (broken joined : eset) : eset := eunion (ediff (
 
 Theorem try_path_sound t broken joined q :
   try_path t broken joined = Some q ->
-  length q = length (tpath t) /\ NoDup q /\ hd_error q = Some 0
+  length q = length (tpath t) /\ NoDup q /\ hd_error q = hd_error (tpath t)
   /\ forall x, In x q -> endp (new_edges t broken joined) x.
 Proof.
   unfold try_path. fold (new_edges t broken joined). set (E := new_edges t broken joined).
   destruct (length E <? length (tpath t)) eqn:Elen; [discriminate|].
   destruct (tpath t) as [|p0 rest] eqn:Ep; [discriminate|].
-  cbn [index_of]. rewrite Nat.eqb_refl.
-  set (succs := walk (length E) E 0 []).
+  set (succs := walk (length E) E p0 []).
   destruct (length succs =? length (p0 :: rest)) eqn:Esl; cbn [negb]; [|discriminate].
   apply Nat.eqb_eq in Esl.
-  set (nt := follow (S (length succs)) succs 0 [0] [0]).
+  set (nt := follow (S (length succs)) succs p0 [p0] [p0]).
   destruct (length nt =? length (p0 :: rest)) eqn:Enl; [|discriminate].
   intros H. inversion H; subst q. apply Nat.eqb_eq in Enl.
-  destruct (follow_spec succs (S (length succs)) 0 [0] [0]) as [A [[l B] C]].
+  destruct (follow_spec succs (S (length succs)) p0 [p0] [p0]) as [A [[l B] C]].
   { constructor; [intros [] | constructor]. }
   { auto. }
   fold nt in A, B, C.
   split; [exact Enl|]. split; [exact A|]. split; [rewrite B; reflexivity|].
   assert (Hs : forall k v, In (k, v) succs -> endp E k /\ endp E v).
-  { apply (walk_endp E (length E) E 0 []); [auto | intros k v []]. }
+  { apply (walk_endp E (length E) E p0 []); [auto | intros k v []]. }
   intros x Hx. destruct (C x Hx) as [[<- | []] | [k Hk]].
   - apply (walk_first_key E (length E)). fold succs. intros Hnil. rewrite Hnil in Esl. discriminate.
   - apply (Hs k x Hk).
@@ -229,7 +228,7 @@ Qed.
 
 Theorem try_path_permutation p broken joined q :
   good_eset p joined -> try_path (tour_new p) broken joined = Some q ->
-  Permutation q p /\ hd_error q = Some 0.
+  Permutation q p /\ hd_error q = hd_error p.
 Proof.
   intros Hj H. apply try_path_sound in H. destruct H as [Hlen [ND [Hhd Hend]]]. split; [|exact Hhd].
   cbn [tour_new tpath] in Hlen.
@@ -249,7 +248,7 @@ Section Search.
   Variable p : list nat.
   Let t := tour_new p.
 
-  Definition okres (r : res) : Prop := forall q, r = Found q -> Permutation q p /\ hd_error q = Some 0.
+  Definition okres (r : res) : Prop := forall q, r = Found q -> Permutation q p /\ hd_error q = hd_error p.
   Definition keys_in (m : list entry) : Prop := forall e, In e m -> In (fst e) p.
 
   Lemma upsert_keys node d g m : In node p -> keys_in m -> keys_in (upsert node d g m).
@@ -421,32 +420,31 @@ Section Search.
     - discriminate.
   Qed.
 
-  Theorem improve_ok q : improve cm nb ho p = Found q -> Permutation q p /\ hd_error q = Some 0.
+  Theorem improve_ok q : improve cm nb ho p = Found q -> Permutation q p /\ hd_error q = hd_error p.
   Proof. unfold improve. apply t1_loop_ok. cbn [tour_new tpath]. auto. Qed.
 End Search.
 
 Theorem optimize_ok cm nb ho :
   (forall l l', ho l = Some l' -> forall e, In e l' -> In e l) ->
   forall ofuel p q, optimize cm nb ho ofuel p = Found q ->
-  Permutation q p /\ (q = p \/ hd_error q = Some 0).
+  Permutation q p /\ hd_error q = hd_error p.
 Proof.
   intros Hho. induction ofuel as [|f IH]; intros p q H; cbn [optimize] in H; [discriminate|].
   destruct (improve cm nb ho p) as [p'| | |] eqn:Ei; try discriminate.
   - apply (improve_ok cm nb ho Hho) in Ei. destruct Ei as [P1 Hd1].
-    apply IH in H. destruct H as [P2 Hd2]. split; [eapply Permutation_trans; eauto|].
-    right. destruct Hd2 as [-> | Hd2]; assumption.
-  - inversion H; subst. split; [apply Permutation_refl | left; reflexivity].
+    apply IH in H. destruct H as [P2 Hd2]. split; [eapply Permutation_trans; eauto | congruence].
+  - inversion H; subst. split; [apply Permutation_refl | reflexivity].
 Qed.
 
-(* start clause for the shape the internal caller uses: the path starts at node 0 *)
-Corollary optimize_start0 cm nb ho :
+Corollary optimize_perm cm nb ho :
   (forall l l', ho l = Some l' -> forall e, In e l' -> In e l) ->
-  forall ofuel p q, hd_error p = Some 0 -> optimize cm nb ho ofuel p = Found q ->
-  Permutation q p /\ hd_error q = hd_error p.
-Proof.
-  intros Hho ofuel p q Hp H. apply (optimize_ok cm nb ho Hho) in H. destruct H as [P [-> | Hd]]; [auto|].
-  split; [exact P | congruence].
-Qed.
+  forall ofuel p q, optimize cm nb ho ofuel p = Found q -> Permutation q p.
+Proof. intros Hho ofuel p q H. exact (proj1 (optimize_ok cm nb ho Hho ofuel p q H)). Qed.
+
+Corollary optimize_start cm nb ho :
+  (forall l l', ho l = Some l' -> forall e, In e l' -> In e l) ->
+  forall ofuel p q, optimize cm nb ho ofuel p = Found q -> hd_error q = hd_error p.
+Proof. intros Hho ofuel p q H. exact (proj2 (optimize_ok cm nb ho Hho ofuel p q H)). Qed.
 
 Lemma strict_ho_sound l l' : strict_ho l = Some l' -> forall e, In e l' -> In e l.
 Proof. unfold strict_ho. destruct (has_tie l); [discriminate|]. intros H; inversion H; auto. Qed.
